@@ -11,6 +11,7 @@ MC_BaseCalls == <<
   >>
 MC_AllNames == {<<"A", i, j>> : i \in 0..1, j \in 0..2} \cup {<<"S", 0, 0>>, <<"S", 0, 1>>, <<"S", 1, 1>>} \cup {<<"C", i, j>> : i \in 0..1, j \in 0..2}
 MC_En == {"MCmp", "MCmpLit", "MBinLit", "MBin", "Transpose", "MNeg"}
+MC_ObjCands == {}
 MC_Stages == <<>>
 MC_FinalEn == {}
 MC_ScalarLits == {LitS("int", Q(2, 1)), LitS("float", Q(-5, 2)), LitS("npf64", Q(3, 1)), LitS("npi64", Q(2, 1))}
